@@ -2,6 +2,7 @@ package proj
 
 import (
 	"fmt"
+	"strconv"
 	"strings"
 )
 
@@ -321,6 +322,23 @@ func (p *pgParser) cmpExpr() PgExpr {
 			}
 		}
 		p.expectP(")")
+		return PgExpr{"e": "in", "a": l, "list": list}
+	case p.isKw("BETWEEN"):
+		// x BETWEEN a AND b with integer literal bounds, on an integer operand, is the membership test
+		// x IN (a, a+1, ..., b): desugared here, PgSem needs no new operator
+		p.next()
+		lo, hi := p.postfix(), PgExpr(nil)
+		p.expectKw("AND")
+		hi = p.postfix()
+		a, errA := strconv.Atoi(fmt.Sprint(lo["v"]))
+		b, errB := strconv.Atoi(fmt.Sprint(hi["v"]))
+		if lo["e"] != "num" || hi["e"] != "num" || errA != nil || errB != nil || b-a > 4096 {
+			p.fail("BETWEEN is only supported with small integer literal bounds")
+		}
+		list := []PgExpr{}
+		for v := a; v <= b; v++ {
+			list = append(list, PgExpr{"e": "num", "v": strconv.Itoa(v)})
+		}
 		return PgExpr{"e": "in", "a": l, "list": list}
 	case p.isKw("IS"):
 		p.next()
